@@ -167,18 +167,6 @@ pub assume_specification<'a, K, V: std::default::Default>[ std::collections::has
             er_valid_from(r) == valid_from && er_entity(r) == entity && er_all(r) == mutate_all && er_self(r) == (mutate_self || mutate_all),
 //@ end
 
-pub closed spec fn user_list(m: Map<Vec<u8>, Vec<User>>, k: Vec<u8>) -> Seq<User> { if m.contains_key(k) { m[k]@ } else { Seq::<User>::empty() } }
-/// append-only, date-ordered update of one history list; every other key untouched
-pub closed spec fn users_appended(old_m: Map<Vec<u8>, Vec<User>>, new_m: Map<Vec<u8>, Vec<User>>, user: User) -> bool {
-    new_m.contains_key(user.verifying_key) && new_m[user.verifying_key]@ == user_list(old_m, user.verifying_key).push(user)
-    && (forall|k: Vec<u8>| k != user.verifying_key ==> (old_m.contains_key(k) == new_m.contains_key(k)) && (old_m.contains_key(k) ==> old_m[k] == new_m[k]))
-}
-/// refused update: nothing but possibly an empty list for a new key appears; every existing list is unchanged
-pub closed spec fn users_unchanged(old_m: Map<Vec<u8>, Vec<User>>, new_m: Map<Vec<u8>, Vec<User>>) -> bool {
-    forall|k: Vec<u8>| (old_m.contains_key(k) ==> new_m.contains_key(k) && old_m[k]@ == new_m[k]@)
-        && (new_m.contains_key(k) && !old_m.contains_key(k) ==> new_m[k]@.len() == 0)
-}
-pub closed spec fn last_date_le(s: Seq<User>, d: i64) -> bool { s.len() > 0 ==> s.last().date <= d }
 
 //@ extract src/database/room.rs :: impl Room / fn add_admin_user
 //@ result r
@@ -218,16 +206,6 @@ pub closed spec fn last_date_le(s: Seq<User>, d: i64) -> bool { s.len() > 0 ==> 
               && final(self).users == old(self).users,
 //@ end
 
-pub closed spec fn right_list(m: Map<String, Vec<EntityRight>>, k: String) -> Seq<EntityRight> { if m.contains_key(k) { m[k]@ } else { Seq::<EntityRight>::empty() } }
-pub closed spec fn rights_appended(old_m: Map<String, Vec<EntityRight>>, new_m: Map<String, Vec<EntityRight>>, right: EntityRight) -> bool {
-    new_m.contains_key(right.entity) && new_m[right.entity]@ == right_list(old_m, right.entity).push(right)
-    && (forall|k: String| k != right.entity ==> (old_m.contains_key(k) == new_m.contains_key(k)) && (old_m.contains_key(k) ==> old_m[k] == new_m[k]))
-}
-pub closed spec fn rights_unchanged(old_m: Map<String, Vec<EntityRight>>, new_m: Map<String, Vec<EntityRight>>) -> bool {
-    forall|k: String| (old_m.contains_key(k) ==> new_m.contains_key(k) && old_m[k]@ == new_m[k]@)
-        && (new_m.contains_key(k) && !old_m.contains_key(k) ==> new_m[k]@.len() == 0)
-}
-pub closed spec fn last_from_le(s: Seq<EntityRight>, d: i64) -> bool { s.len() > 0 ==> s.last().valid_from <= d }
 
 //@ extract src/database/room.rs :: impl Authorisation / fn add_right
 //@ result r
